@@ -81,16 +81,107 @@ def Bound (s : State) (ln : String) : Prop :=
 def quietReport (s : State) : Report :=
   { parts := allParts.map fun p => (p, (getPart s p).map fun _ => false) }
 
-/-- operations that change no byte on disk and create / delete / reorder nothing in memory:
-lazy reads, edits of values, deletions of glyphs, images and data, touch-only external edits,
-tests, reloads of top-level objects, and save-as to a new path (after which the new UFO is the UFO).
-(Not: creating glyphs or layers, deleting or reordering layers, changing the default layer —
-finding F8 — and in-place saves, which are covered by the correspondence runs only.) -/
+/-- a glyph that exists in memory only: it is loaded and dirty (the next save writes it) -/
+def MemOnly (l : MLayer) (gn : String) : Prop := ∃ g, AL.get? l.glyphs gn = some g ∧ g.dirty = true
+
+/-- a glyph layer in step with its directory on disk EXCEPT for glyphs that exist in memory only
+(created or renamed in memory under a name the directory does not hold — what finding F8.1 is
+about): every file is known, every key is a file or such a glyph, stamps hold the bytes on disk -/
+structure LayerSyncedM (ln : String) (dl : DLayer) (l : MLayer) : Prop where
+  info : l.infoStamp = some dl.info
+  onDisk : ∀ gn, gn ∈ AL.keys dl.glifs → (gn ∈ l.keys ∨ AL.contains l.sched gn = true)
+  known : ∀ gn, gn ∈ l.keys → gn ∈ AL.keys dl.glifs ∨ MemOnly l gn
+  schedOnDisk : ∀ gn, AL.contains l.sched gn = true → gn ∈ AL.keys dl.glifs
+  disjoint : ∀ gn, gn ∈ l.keys → AL.contains l.sched gn = false
+  glyphs : ∀ gn g st, (gn, g) ∈ l.glyphs → g.stamp = some st → gn ∈ AL.keys dl.glifs →
+    ∃ f, AL.get? dl.glifs gn = some f ∧ f.blob = st.blob
+  sched : ∀ gn st, AL.get? l.sched gn = some st → ∃ f st', AL.get? dl.glifs gn = some f ∧ st = some st' ∧ f.blob = st'.blob
+  gs : ∃ g, l.gs = some g ∧ g.lname = ln ∧ g.alive = true ∧ ∀ gn, gn ∈ g.contents ↔ gn ∈ AL.keys dl.glifs
+  loaded : ∀ gn g, (gn, g) ∈ l.glyphs → gn ∈ l.keys
+  nodupGlyphs : (AL.keys l.glyphs).Nodup
+
+/-- `Synced` with `LayerSyncedM` for the layers: the font is in step with its UFO except for glyphs
+that exist in memory only.  This is what glyph creation and renaming keep, and what an in-place
+save turns into `Synced`. -/
+structure SyncedM (s : State) : Prop where
+  parts : ∀ p, PartAgree s p
+  order : s.font.order = layerNames s.disk
+  default : s.font.default = s.disk.default
+  layers : ∀ ln, ln ∈ s.font.order →
+    ∃ l dl, AL.get? s.font.layers ln = some l ∧ AL.get? s.disk.layers ln = some dl ∧ LayerSyncedM ln dl l
+  images : FSSynced s.disk.images s.font.images
+  data : FSSynced s.disk.data s.font.data
+  reader : s.zip = true → stripTimes s.reader = stripTimes s.disk
+  nodupOrder : s.font.order.Nodup
+
+/-- the names within every directory of the UFO are unique (they are the keys of contents.plist /
+the names of files in one directory) -/
+structure DiskOk (d : Disk) : Prop where
+  glifs : ∀ ln dl, AL.get? d.layers ln = some dl → (AL.keys dl.glifs).Nodup
+  images : (AL.keys d.images).Nodup
+  data : (AL.keys d.data).Nodup
+
+/-- an entry of the layer set's action history for which a save has nothing to carry out on the
+UFO: the creation of a layer (its directory is made when the layer is written), or a change of the
+default layer to the layer that is the default now -/
+def TameAction (dflt : Option String) : Action → Prop
+  | .new _ => True
+  | .delete _ => False
+  | .default n old => dflt = some n ∧ old ≠ some n
+
+/-- Nothing is pending in the font's bookkeeping beyond what `Synced` speaks about: the layer set has
+recorded no deletion and no default-layer change that a save would still have to replay over the
+UFO; the layer dictionary holds no layer outside the layer order; a layer's table of pending deletions
+lists a name once; no image / data name is listed
+and scheduled for deletion at the same time; glyph, image and data names are unique on disk.  Holds for a font just opened and is kept by every
+quiet operation (`tidy_step`). -/
+structure Tidy (s : State) : Prop where
+  history : ∀ a, a ∈ s.font.history → TameAction s.font.default a
+  layersInOrder : ∀ ln, AL.contains s.font.layers ln = true → ln ∈ s.font.order
+  schedNodup : ∀ ln l, AL.get? s.font.layers ln = some l → (AL.keys l.sched).Nodup
+  imagesDisjoint : ∀ n, AL.contains s.font.images.entries n = true → AL.contains s.font.images.sched n = false
+  dataDisjoint : ∀ n, AL.contains s.font.data.entries n = true → AL.contains s.font.data.sched n = false
+  disk : DiskOk s.disk
+
+/-- the other program has deleted nothing: every layer, glyph, image and data file of `d` is still
+in `d'` (whatever else it did: rewrite, touch, add files, add layers, reorder them, change the
+default layer, delete or create top-level files).  There is no reload method for deletions. -/
+structure Keeps (d d' : Disk) : Prop where
+  layers : ∀ ln, ln ∈ layerNames d → ln ∈ layerNames d'
+  glifs : ∀ ln gn, gn ∈ glifNames d ln → gn ∈ glifNames d' ln
+  images : ∀ n, n ∈ AL.keys d.images → n ∈ AL.keys d'.images
+  data : ∀ n, n ∈ AL.keys d.data → n ∈ AL.keys d'.data
+
+/-- the entry of a layer in the report of a font that is in step except for memory-only glyphs:
+nothing but those glyphs, listed as deleted (finding F8.1) -/
+def memOnlyEntry (s : State) (ln : String) : Option (String × LayerRep) :=
+  match AL.get? s.font.layers ln with
+  | some l =>
+    if (layerDeleted s.disk ln l).isEmpty then none
+    else some (ln, { info := false, modified := [], added := [], deleted := layerDeleted s.disk ln l })
+  | none => none
+
+/-- glyph-level editing between two saves: reading, editing, deleting, creating and renaming glyphs,
+reading and editing top-level objects and layer info -/
+def EditOp : Op → Prop
+  | .touch _ | .pset _ _ | .reloadpart _ | .lset _ _ => True
+  | .gget _ _ | .gset _ _ _ | .gdel _ _ | .gnew _ _ | .grename _ _ _ => True
+  | _ => False
+
+/-- operations that change no byte on disk that the font has not written itself, and create /
+delete / reorder nothing in memory: lazy reads, edits of values, deletions of glyphs, images and
+data, touch-only external edits, tests, reloads of top-level objects, in-place saves (which write
+exactly what the font holds and stamp what they wrote) and save-as to a new path (after which the
+new UFO is the UFO).
+(Not: creating or renaming glyphs under names the UFO does not know, creating layers, deleting or
+reordering layers, changing the default layer — finding F8; see `QuietAt` for the creations and
+renamings that stay within the names of the UFO.) -/
 def Quiet : Op → Prop
   | .touch _ | .pset _ _ | .gget _ _ | .gset _ _ _ | .gdel _ _ | .lset _ _ => True
   | .fget _ _ | .fset _ _ _ => True
   | .xpart _ .touch _ | .xglyph _ _ .touch _ | .xfile _ _ .touch _ => True
   | .test | .reloadpart _ => True
+  | .save _ _ => True
   | .saveas _ _ => True
   | _ => False
 
